@@ -57,6 +57,16 @@ PINS = [
     'mesonbuild.mintro:write_intro_info',
     'mesonbuild.dependencies.base:Dependency.__init__',
     'mesonbuild.depfile:DepFile.get_all_dependencies',
+    'mesonbuild.compilers.compilers:CompileResult',
+    'mesonbuild.compilers.compilers:RunResult',
+    'mesonbuild.compilers.compilers:Compiler.cached_compile',
+    'mesonbuild.compilers.compilers:Compiler.compile',
+    'mesonbuild.compilers.compilers:Compiler.cached_run',
+    'mesonbuild.compilers.mixins.gnu:GnuCompiler.has_arguments',
+    'mesonbuild.coredata:CoreData.__init__',
+    'mesonbuild.coredata:CoreData.clear_cache',
+    'mesonbuild.coredata:save',
+    'mesonbuild.coredata:load',
     'mesonbuild.depfile:DepFile.__init__',
     'mesonbuild.modules.pkgconfig:PkgConfigModule._generate_pkgconfig_file',
 ]
@@ -271,6 +281,13 @@ def gen_cases(ctx: Ctx, mult: int = 1, only: T.Optional[T.Set[str]] = None) -> T
             pr = [(tg, rng.sample(dp, len(dp))) for tg, dp in pr]
             variants.append({'lines': render(pr), 'name': name})
         group('depfile', variants)
+    # cached compiler-check results: pickle round trip + the stderr-reading verdict of GNU-like compilers
+    notes = ["cc1: warning: command-line option '-Wx' is valid for C++/ObjC++ but not for C\n",
+             "cc1plus: warning: command-line option '-Wx' is valid for C/ObjC but not for C++\n",
+             "warning: unrecognized command-line option '-Wno-x'\n", '', 'note: is valid for', 'is valid for C/ObjC', 'x.c:1: warning: y\n']
+    for _ in range(n(60, 600)):
+        err = ''.join(rng.choice(notes) if rng.random() < 0.7 else rstr(rng, 6, 0.2) for _ in range(rng.randint(0, 3)))
+        group('gnuarg', [{'is_c': rng.random() < 0.5, 'rc': rng.choice([0, 0, 0, 1, 4]), 'stdout': rstr(rng, 5, 0.2), 'stderr': err}])
     # writers on a real directory
     for _ in range(n(120, 1500)):
         fam_b = rng.sample([0, 1, 2, 3], rng.randint(0, 2))
@@ -327,6 +344,12 @@ def oracle_inproc(ctx: Ctx, cases: T.List[dict], results: T.Dict[str, T.List[dic
                 if r['out']['first'] != r['out']['again']:
                     ctx.violation(KEY_DEPID, 'the same dependency list gets different names in two constructions '
                                   '(Dependency.__init__ mints dep<uuid4>)',
+                                  {'type': 'inproc', 'cases': [strip_case(c)], 'seeds': [seed]})
+                continue
+            if c['kind'] == 'gnuarg':
+                if not r['out']['same_fields'] or r['out']['fresh'] != r['out']['cached']:
+                    ctx.violation('cache:compile-result:pickle-roundtrip', 'a compiler-check result read back from the pickled cache '
+                                  'differs from the fresh one (fields or has_arguments verdict): ' + json.dumps(r['out']),
                                   {'type': 'inproc', 'cases': [strip_case(c)], 'seeds': [seed]})
                 continue
             if c['kind'] == 'fs':
